@@ -20,7 +20,7 @@ RULE = (
     "ssl_context {none, create_urllib3_context(), same with check_hostname off, stdlib create_default_context with our CA} x "
     "CA source {ca_certs file, ca_cert_data, none = the OS default store, which SSL_CERT_FILE makes hold the other authority only} x issuer {trusted authority, the other authority} x certificate names {exact, mismatch, wildcard, "
     "IPv4, IPv6, commonName only} x requested host form {lower, UPPER, trailing dot, IPv4, [IPv6], [IPv6%25zone]} x backend "
-    "{ssl, pyOpenSSL} x path {direct, http-proxy CONNECT tunnel, https-proxy tunnel = real TLS in TLS with the proxy certificate ok / untrusted / wrong name}. Every cell is a REAL TLS handshake (trustme certificates) over "
+    "{ssl, pyOpenSSL} x path {direct, http-proxy CONNECT tunnel, https-proxy tunnel = real TLS in TLS with the proxy certificate ok / untrusted / wrong name and the proxy context own / the very object used for the destination, with or without proxy_assert_hostname}. Every cell is a REAL TLS handshake (trustme certificates) over "
     "socket.socketpair() against an in-process server thread that records whether any application byte arrived after the "
     "handshake. Reference decision table (written from the documentation): which of chain / pin / hostname checks the settings "
     "demand and whether the peer passes them. Non-trivial = at least one demanded check fails, or cert_reqs is not REQUIRED."
@@ -45,6 +45,9 @@ SAN = ["exact", "mismatch", "wildcard", "ipv4", "ipv6", "cn-only"]
 HOSTFORM = ["lower", "upper", "dot", "ipv4", "ipv6", "ipv6zone"]
 PATHS = ["direct", "tunnel", "tunnel-tls"]
 PCERT = ["ok", "untrusted", "wrongname"]
+# https proxy: its own context | the SAME context object as the destination's | each with proxy_assert_hostname set
+# (urllib3 then switches check_hostname off ON THAT OBJECT and matches the proxy's name itself)
+PMODES = ["own", "shared", "own-pah", "shared-pah"]
 
 HOST = {"lower": "www.example.test", "upper": "WWW.Example.TEST", "dot": "www.example.test.", "ipv4": "10.11.12.13", "ipv6": "[fd00::7]", "ipv6zone": "[fe80::7%25eth0]"}
 NAME_OF_FORM = {"lower": "www.example.test", "upper": "www.example.test", "dot": "www.example.test", "ipv4": "10.11.12.13", "ipv6": "fd00::7", "ipv6zone": "fe80::7"}
@@ -260,7 +263,10 @@ def reference(case, cn_enabled_by_context):
     config_error = ctx_kind in ("urllib3", "stdlib-default") and eff == "NONE" and case["backend"] == "ssl"
     # urllib3 applies the destination's cert_reqs to the TLS leg towards an https proxy as well; the proxy context used
     # here has check_hostname on, so cert_reqs=NONE is the same contradictory configuration there
-    config_error = config_error or (case["path"] == "tunnel-tls" and eff == "NONE")
+    # (unless the proxy leg runs on the caller's own context with check_hostname off: then cert_reqs=NONE simply means
+    #  that the proxy is not verified either)
+    proxy_unverified = case["path"] == "tunnel-tls" and eff == "NONE" and case.get("pmode", "own").startswith("shared") and ctx_kind == "urllib3-nocheck"
+    config_error = config_error or (case["path"] == "tunnel-tls" and eff == "NONE" and not proxy_unverified)
     pin = case["fp"] != "unset"
     chain_demanded = eff != "NONE"
     # which CAs does the client know?
@@ -284,7 +290,7 @@ def reference(case, cn_enabled_by_context):
         name = url_name
     verdict = refname.decide(sans, cn, name, cn_enabled_by_context)
     return {"eff": eff, "config_error": config_error, "chain_demanded": chain_demanded, "chain_ok": chain_ok, "pin": pin, "pin_ok": pin_ok, "host_demanded": host_demanded,
-            "host_verdict": verdict, "name": name, "verified_label": eff == "REQUIRED" or pin}
+            "host_verdict": verdict, "name": name, "verified_label": eff == "REQUIRED" or pin, "proxy_unverified": proxy_unverified}
 
 
 def _validate(case):
@@ -295,6 +301,11 @@ def _validate(case):
         raise core.InvalidCase
     if case.get("pcert", "ok") not in PCERT or (case.get("pcert", "ok") != "ok" and case["path"] != "tunnel-tls"):
         raise core.InvalidCase
+    pm = case.get("pmode", "own")
+    if pm not in PMODES or (pm != "own" and case["path"] != "tunnel-tls"):
+        raise core.InvalidCase
+    if pm.startswith("shared") and (case["ctx"] == "none" or (case["ca"] == "none" and case["ctx"] != "stdlib-default")):
+        raise core.InvalidCase  # one context object for both legs: there must be one, and it must know the proxy's CA
 
 
 def run_case(case) -> list[Failure]:
@@ -373,9 +384,14 @@ def run_case(case) -> list[Failure]:
             warnings.simplefilter("always")
             try:
                 if case["path"] == "tunnel-tls":
-                    pctx = create_urllib3_context()
-                    pctx.load_verify_locations(cafile=w["ca_file"])
-                    obj = urllib3.ProxyManager("https://proxy.test:3128", retries=False, proxy_ssl_context=pctx, **kw)
+                    pmode = case.get("pmode", "own")
+                    if pmode.startswith("shared"):
+                        pctx = kw["ssl_context"]
+                    else:
+                        pctx = create_urllib3_context()
+                        pctx.load_verify_locations(cafile=w["ca_file"])
+                    pkw = {"proxy_assert_hostname": "proxy.test"} if pmode.endswith("pah") else {}
+                    obj = urllib3.ProxyManager("https://proxy.test:3128", retries=False, proxy_ssl_context=pctx, **pkw, **kw)
                     url = f"https://{host}:8443/secret-path"
                 elif tunnel:
                     obj = urllib3.ProxyManager("http://proxy.test:3128", retries=False, **kw)
@@ -421,7 +437,7 @@ def run_case(case) -> list[Failure]:
                 f"server saw {len(app)} application bytes, handshakes {[(p.proxy_handshake, p.handshake) for p in peers]}, is_verified={is_verified}, warned={warned}")
 
     demanded_fail = []
-    if pcert != "ok":
+    if pcert != "ok" and not ref["proxy_unverified"]:
         demanded_fail.append("proxy-" + pcert)
         if any(p.connect_line for p in peers):
             fails.append(Failure("bytes-sent", {**sig, "failed": "proxy-" + pcert, "what": "connect-line"}, f"CONNECT was sent to a proxy whose certificate is {pcert}: {brief()}"))
@@ -490,7 +506,7 @@ def nontrivial(case):
 
 def classes(case):
     r = reference(case, False)
-    out = ["backend:" + case["backend"], "path:" + case["path"], "pcert:" + case.get("pcert", "ok"), "cert_reqs:" + r["eff"], "ctx:" + case["ctx"], "san:" + case["san"], "host:" + case["hostform"], "fp:" + case["fp"], "ah:" + case["ah"], "sh:" + case["sh"], "ca:" + case["ca"], "issuer:" + case["issuer"]]
+    out = ["backend:" + case["backend"], "path:" + case["path"], "pcert:" + case.get("pcert", "ok"), "pmode:" + case.get("pmode", "own"), "cert_reqs:" + r["eff"], "ctx:" + case["ctx"], "san:" + case["san"], "host:" + case["hostform"], "fp:" + case["fp"], "ah:" + case["ah"], "sh:" + case["sh"], "ca:" + case["ca"], "issuer:" + case["issuer"]]
     if r["config_error"]:
         out.append("config-error")
     return out
@@ -529,6 +545,9 @@ def pairwise_core(backend):
         for pc in PCERT[1:]:
             for cr, ctx, issuer, san in itertools.product(CERT_REQS, CONTEXTS, ISSUER, ("exact", "mismatch")):
                 yield dict(base, path="tunnel-tls", pcert=pc, cert_reqs=cr, ctx=ctx, issuer=issuer, san=san)
+        for pmode in PMODES[1:]:
+            for cr, ctx, issuer, san, ah, pc in itertools.product(("unset", "CERT_OPTIONAL"), CONTEXTS[1:] if pmode.startswith("shared") else CONTEXTS, ISSUER, ("exact", "mismatch", "cn-only"), ("unset", "false", "mismatch"), PCERT):
+                yield dict(base, path="tunnel-tls", pcert=pc, pmode=pmode, cert_reqs=cr, ctx=ctx, issuer=issuer, san=san, ah=ah)
     names = list(axes)
     seen = set()
     for a, b, c3 in itertools.combinations(names, 3):
@@ -585,7 +604,7 @@ def run_shard(spec):
 
             strat = st.fixed_dictionaries({"kind": st.just("tls"), "cert_reqs": st.sampled_from(CERT_REQS), "ah": st.sampled_from(ASSERT_HOSTNAME), "fp": st.sampled_from(FINGERPRINT + ["unset", "unset"]),
                                            "sh": st.sampled_from(SERVER_HOSTNAME), "ctx": st.sampled_from(CONTEXTS), "ca": st.sampled_from(CA_SOURCE), "issuer": st.sampled_from(ISSUER + ["trusted"]),
-                                           "san": st.sampled_from(SAN), "hostform": st.sampled_from(HOSTFORM), "path": st.sampled_from(PATHS), "backend": st.just(backend), "pcert": st.sampled_from(["ok", "ok", "ok", "untrusted", "wrongname"])}).map(lambda c: dict(c, pcert="ok") if c["path"] != "tunnel-tls" else c)
+                                           "san": st.sampled_from(SAN), "hostform": st.sampled_from(HOSTFORM), "path": st.sampled_from(PATHS), "backend": st.just(backend), "pcert": st.sampled_from(["ok", "ok", "ok", "untrusted", "wrongname"]), "pmode": st.sampled_from(PMODES)}).map(lambda c: dict(c, pcert="ok", pmode="own") if c["path"] != "tunnel-tls" else (dict(c, pmode=c["pmode"].replace("shared", "own")) if c["pmode"].startswith("shared") and (c["ctx"] == "none" or (c["ca"] == "none" and c["ctx"] != "stdlib-default")) else c))
 
             def body(case):
                 if coherent(case):
